@@ -113,6 +113,7 @@ type c13World struct {
 	next   int
 	pre    int // replies before the transfer
 	wire   []byte
+	third  []byte
 }
 
 func (w *c13World) Start(x *h.Exec) {
@@ -135,6 +136,16 @@ func (w *c13World) Start(x *h.Exec) {
 	w.be.Plan = func(idx int) h.DataPlan {
 		if idx == 0 {
 			return plan
+		}
+		if idx == 1 {
+			// the transaction right behind the first: the recipients of the FIRST one again, each with a status of its own
+			p3 := h.DataPlan{Max: -1}
+			if !c.Plain {
+				for i := 0; i < len(c.Rcpts); i++ {
+					p3.Status = append(p3.Status, h.StatusCall{Rcpt: c13Addr(c.Rcpts[i]), Err: &smtp.SMTPError{Code: 460 + i, EnhancedCode: smtp.EnhancedCode{4, 7, i}, Message: fmt.Sprintf("third-%d", i)}})
+				}
+			}
+			return p3
 		}
 		// the follow-up transaction (recipients b, a, a): every recipient gets a status that names it
 		p2 := h.DataPlan{Max: -1}
@@ -212,6 +223,16 @@ func (w *c13World) Finish(x *h.Exec) *h.Finding {
 	// nothing of the first transaction's status bookkeeping may survive
 	var second []byte
 	if w.c.Ret != "panic" {
+		// right behind it a transaction with exactly the recipient list of the first (whatever was kept of the first transfer -
+		// statuses set early, a collector, a result - must not meet its own recipients again)
+		var env3 strings.Builder
+		env3.WriteString("MAIL FROM:<ok@a3.example>\r\n")
+		for i := 0; i < len(w.c.Rcpts); i++ {
+			fmt.Fprintf(&env3, "RCPT TO:<%s>\r\n", c13Addr(w.c.Rcpts[i]))
+		}
+		w.client.Write([]byte(env3.String() + "BDAT 6 LAST\r\nthird\n"))
+		h.Wait()
+		w.third = w.client.In.Drain()
 		env := "MAIL FROM:<ok@a2.example>\r\n" + fmt.Sprintf("RCPT TO:<%s>\r\nRCPT TO:<rejmiddle@x.example>\r\nRCPT TO:<%s>\r\nRCPT TO:<%s>\r\n", c13Addr('b'), c13Addr('a'), c13Addr('a'))
 		// always chunked: BDAT keeps per-transaction state on the connection between commands
 		w.client.Write([]byte(env + "BDAT 8 LAST\r\nsecond\r\n"))
@@ -276,7 +297,15 @@ func (w *c13World) Finish(x *h.Exec) *h.Finding {
 			if len(final) != 2 || final[0].Code != 554 || final[1].Class() != 5 {
 				return h.F("c13-early-chunk", "%s: want 554 for the failed chunk and 5xx for the next, got %v", desc, final)
 			}
-			return nil
+			// no per-recipient replies in this transaction; the transactions behind it are judged like all others
+			trs, terr := ref.ParseReplies(tail)
+			if terr != nil || len(trs) != 1 || trs[0].Code != 250 {
+				return h.F("c13-out-of-step", "%s: a NOOP after the transfer was answered %q", desc, tail)
+			}
+			if f := c13ThirdTransaction(desc, c, w.third); f != nil {
+				return f
+			}
+			return c13SecondTransaction(desc, c, second)
 		}
 		if len(final) == 0 || final[0].Code != 250 {
 			return h.F("c13-chunk-reply", "%s: first chunk not answered 250", desc)
@@ -315,6 +344,9 @@ func (w *c13World) Finish(x *h.Exec) *h.Finding {
 			return h.F("c13-out-of-step", "%s: a NOOP after the transfer was answered %q", desc, tail)
 		}
 		if f := c13SecondTransaction(desc, c, second); f != nil {
+			return f
+		}
+		if f := c13ThirdTransaction(desc, c, w.third); f != nil {
 			return f
 		}
 	}
@@ -435,7 +467,7 @@ func C13(tier string) int {
 			}
 		}
 	}
-	run.Rule = fmt.Sprintf("scenarios: recipient lists of 1..%d entries over {a,b} (%d lists, duplicates included) x every sequence of status calls with at most one call too many / for a recipient not in the list (the k-th call carries its own code and text 'status-k', every third is plain success) x every split of the calls into before/after the message is read x return {nil, error, panic, error-without-reading} x {DATA, BDAT one chunk, BDAT two chunks} + a backend without per-recipient support. For every scenario the schedule explorer (testing/synctest) enumerates the orders of: backend steps (enter, each SetStatus, each Read, return), the handler's reply writes, and the client's segments - ALL interleavings for lists of <=%d recipients, deviation bound %d above. states = scenarios; transitions = scheduling decisions; traces validated = executions on the real server. Lists beginning with b are preceded by a recipient the backend refuses at RCPT time, and every scenario is followed by a second (chunked) transaction b, <refused>, a, a. Oracle: exactly one reply per accepted RCPT, in order, '<rcpt>' prefix, k-th status of an address for its k-th occurrence, otherwise the return value (421 after a panic); never a deadlock (runtime-detected) and a following NOOP is in step; contract-breaking scripts only need to stay deadlock-free and well-formed.", maxR, len(lists), fullUpTo, bound)
+	run.Rule = fmt.Sprintf("scenarios: recipient lists of 1..%d entries over {a,b} (%d lists, duplicates included) x every sequence of status calls with at most one call too many / for a recipient not in the list (the k-th call carries its own code and text 'status-k', every third is plain success) x every split of the calls into before/after the message is read x return {nil, error, panic, error-without-reading} x {DATA, BDAT one chunk, BDAT two chunks} + a backend without per-recipient support. For every scenario the schedule explorer (testing/synctest) enumerates the orders of: backend steps (enter, each SetStatus, each Read, return), the handler's reply writes, and the client's segments - ALL interleavings for lists of <=%d recipients, deviation bound %d above. states = scenarios; transitions = scheduling decisions; traces validated = executions on the real server. Lists beginning with b are preceded by a recipient the backend refuses at RCPT time, and every scenario is followed directly by a (chunked) transaction with the recipient list of the first, every recipient with a status of its own, and then by a (chunked) transaction b, <refused>, a, a. Oracle: exactly one reply per accepted RCPT, in order, '<rcpt>' prefix, k-th status of an address for its k-th occurrence, otherwise the return value (421 after a panic); never a deadlock (runtime-detected) and a following NOOP is in step; contract-breaking scripts only need to stay deadlock-free and well-formed.", maxR, len(lists), fullUpTo, bound)
 	run.Assumptions = []string{"SetStatus after LMTPData has returned is not generated (the interface forbids it)", "a panicking plain backend may be answered by one 421 and a closed connection"}
 	h.ParallelFor(len(cases), func(i int) {
 		if run.Expired() {
@@ -512,6 +544,35 @@ func c13SecondTransaction(desc string, c C13Case, wire []byte) *h.Finding {
 		}
 		if final[i].Code != 450+i || !strings.Contains(text, fmt.Sprintf("second-%d-for-%c", i, ch)) {
 			return h.F("c13-second-wrong-status", "%s: second transaction: reply %d for %s is %s, want %d second-%d-for-%c", desc, i, c13Addr(ch), final[i].String(), 450+i, i, ch)
+		}
+	}
+	return nil
+}
+
+// c13ThirdTransaction judges the third transaction (the recipient list of the first one again, chunked).
+func c13ThirdTransaction(desc string, c C13Case, wire []byte) *h.Finding {
+	rs, err := ref.ParseReplies(wire)
+	if err != nil {
+		return h.F("c13-third-bad-wire", "%s: third transaction: %v (%q)", desc, err, wire)
+	}
+	n := len(c.Rcpts)
+	if len(rs) != 1+2*n {
+		return h.F("c13-third-reply-count", "%s: the third transaction (the recipients of the first one again) got %d replies, want %d: %q", desc, len(rs), 1+2*n, wire)
+	}
+	for i := 0; i < n; i++ {
+		r := rs[1+n+i]
+		text := strings.Join(r.Text, " ")
+		if !strings.HasPrefix(text, "<"+c13Addr(c.Rcpts[i])+">") {
+			return h.F("c13-third-not-attributed", "%s: third transaction: reply %d does not name %s: %s", desc, i, c13Addr(c.Rcpts[i]), r.String())
+		}
+		if c.Plain {
+			if r.Code != 250 {
+				return h.F("c13-third-wrong-status", "%s: third transaction: reply %d is %s, want 250", desc, i, r.String())
+			}
+			continue
+		}
+		if r.Code != 460+i || !strings.Contains(text, fmt.Sprintf("third-%d", i)) {
+			return h.F("c13-third-wrong-status", "%s: third transaction: reply %d for %s is %s, want %d third-%d", desc, i, c13Addr(c.Rcpts[i]), r.String(), 460+i, i)
 		}
 	}
 	return nil
